@@ -163,7 +163,8 @@ class Prop(BaseProp):
                 if idx % 60 == 0:
                     res.sample = {"argv": wit["argv"], "first_lines": rst.split("\n")[:8]}
                 return res
-            tree = gen_tree(rng, max_depth=rng.choice([0, 1, 2, 4]), mixed_case=False, noncmake=False)
+            tree = gen_tree(rng, max_depth=rng.choice([0, 1, 2, 4]), mixed_case=False, noncmake=False,
+                            many_files=rng.choice([0] * 12 + [17, 35, 70]), deep_chain=rng.choice([0] * 25 + [14, 30]))
             mdocs = {}
             for f in list(tree.files):
                 tree.files[f], mdocs[f] = self.module_text(rng, f, res)
